@@ -172,6 +172,10 @@ def gen_multi(rng, tier, k, shard):
     return case
 
 
+def force_flat_start(spec, gi):
+    return spec["type"] == "xy" and (gi // 6) % 8 in (3, 6)
+
+
 def gen_case(rng, tier, idx, shard, nshards):
     if idx % 5 == 1:
         return gen_multi(rng, tier, idx // 5, shard)
@@ -189,8 +193,14 @@ def gen_case(rng, tier, idx, shard, nshards):
             n = len(spec["edges"]) - 1
             setup.append(["add_error", {"err": [float(np.round(v, 4)) for v in rng.uniform(3.0, 8.0, size=n)], "relative": False, "reference": "data", "corr": 0.0, "name": "e0"}])
     else:
+        # stratum 'flat-start-correlated-x' (monotone family, correlated x source, zero start amplitude) is enumerated, not left to chance:
+        # two of every eight rounds of the xy slots, one with each algorithm
+        force_flat = force_flat_start({"type": ftype}, gi)
         fam = str(rng.choice(["exponential", "powerlaw", "gausspeak", "lorentz", "sinusoid", "logistic"]))
         cost = str(rng.choice(["chi2", "chi2", "chi2", "chi2_pointwise", "nll_gaussian", "nll_poisson", "chi2_fast"]))
+        if force_flat:
+            fam = str(rng.choice(list(MONOTONE)))
+            cost = str(rng.choice(["chi2", "chi2", "chi2_pointwise", "nll_gaussian"]))
         counts = COST_ALIASES[cost] in POISSON
         npts = int(rng.integers(len(Model(fam).pnames) + 4, 14))
         spec = (gen.gen_xy_spec if ftype == "xy" else gen.gen_indexed_spec)(rng, family=fam, cost=cost, counts=counts, n=npts, noise=0.04, counts_from_model=8.0)
@@ -198,7 +208,9 @@ def gen_case(rng, tier, idx, shard, nshards):
         if not counts:
             setup.append(gen.gen_source(rng, npts, ftype, "e0", yscale=ys * 0.5, force={"axis": "y", "reference": "data", "kind": "simple", "shape": "vec", "relative": False, "corr": 0.0}))
             r = rng.random()
-            if r < 0.35:
+            if force_flat:
+                setup.append(["add_error", {"axis": "x", "err": float(np.round(rng.uniform(0.03, 0.12), 4)), "relative": False, "reference": str(rng.choice(["data", "model"])), "corr": float(rng.choice([0.3, 0.6])), "name": "e1"}])
+            elif r < 0.35:
                 setup.append(["add_error", dict({"err": float(np.round(rng.uniform(0.03, 0.1), 4)), "relative": True, "reference": "model", "corr": float(rng.choice([0.0, 0.0, 0.3])), "name": "e1"}, **({"axis": "y"} if ftype == "xy" else {}))])
             elif r < 0.6 and ftype == "xy":
                 # declared on the data or on the model (x_model = x_data: the same numbers, but kept by another container)
@@ -227,7 +239,7 @@ def gen_case(rng, tier, idx, shard, nshards):
             start[nm] = float(np.clip(start[nm], lo + 1e-3 * (hi - lo), hi - 1e-3 * (hi - lo)))
     flat = False
     fam_ = spec["model"]["family"]
-    if spec["type"] == "xy" and fam_ in ("exponential", "powerlaw", "logistic") and any(gen.norm_axis(o[1].get("axis")) == "x" and o[1].get("corr") for o in setup) and rng.random() < 0.6:
+    if spec["type"] == "xy" and fam_ in ("exponential", "powerlaw", "logistic") and any(gen.norm_axis(o[1].get("axis")) == "x" and o[1].get("corr") for o in setup) and (rng.random() < 0.6 or force_flat_start(spec, gi)):
         # start with zero amplitude: the model is flat in x there, so the projected x uncertainties (and their correlations) vanish at the
         # start values although they do not at the optimum
         from vlib.models import UNIT_PARAMS
